@@ -431,6 +431,35 @@ def run_free(case, seed, R):
                     wb[embed_index(si, wantQ.shape)] = x.ravel()
                     R.expect_close(np.asarray(getattr(back, 'data', None)).reshape(-1) if np.shape(getattr(back, 'data', None)) == wantQ.shape else None,
                                    wb, 2 * t, f'Wavefront.free_space:inverse:{cell}:Q={Q}', f'free_space(-z) after free_space(z, Q={Q}) does not return the field, z={z}')
+        # object history of ONE Wavefront: propagate, rewrite the field in place (an aperture, a phase screen) or rebind it, propagate again
+        # with the same arguments -- the second answer is the operator applied to the CURRENT field (and the laws hold for it)
+        if n > 1:
+            z = ZS[1] if len(ZS) > 1 else ZS[0]
+            t = K_FS * eps * (1 + phase_max(so2, z)) * max(1.0, math.sqrt(e0)) * 4
+            m = (np.arange(n).reshape(si) % 3 != 0).astype(float) * (0.5 + 0.5j)
+            for Q, A in ((1, A1), (2, A2)):
+                for how in ('inplace', 'rebind', 'setitem'):
+                    wv = Wavefront(x.copy(), wvl, dx, 'pupil')
+                    R.call(wv.free_space, z, Q, sig='Wavefront.free_space:history:exception')
+                    if how == 'inplace':
+                        wv.data *= m.astype(cdt)
+                    elif how == 'rebind':
+                        wv.data = (wv.data * m).astype(cdt)
+                    else:
+                        wv.data[...] = x * m
+                    xm = (x * m).astype(cdt)
+                    o = R.call(wv.free_space, z, Q, sig='Wavefront.free_space:history:exception')
+                    if o is FAILED:
+                        continue
+                    wantm = (A[z] @ xm.ravel().astype(complex)).reshape(si if Q == 1 else so2)
+                    R.expect_close(getattr(o, 'data', None), wantm, t, f'Wavefront.free_space:history:after-data-{how}:{cell}:Q={Q}',
+                                   f'free_space(dz={z}, Q={Q}) after the field of the same Wavefront was changed ({how}) and an earlier identical call: not the propagation of the current field')
+                    o0 = R.call(wv.free_space, 0.0, Q, sig='Wavefront.free_space:history:exception')
+                    if o0 is not FAILED:
+                        w0 = np.zeros(wantm.size, complex)
+                        w0[embed_index(si, wantm.shape)] = xm.ravel()
+                        R.expect_close(np.asarray(getattr(o0, 'data', None)).reshape(-1) if np.shape(getattr(o0, 'data', None)) == wantm.shape else None, w0, t,
+                                       f'Wavefront.free_space:history:after-data-{how}:{cell}:Q={Q}', 'free_space(0) of the changed field is not the (zero padded) field')
         # argument forms of the scalar parameters: numpy scalars and 0-d / one-element arrays (what a table of wavelengths, a config
         # array or a unit conversion hands over); the SAME objects go into two successive propagations (z, then -z), so a routine that
         # converts units in place on its argument is seen by the hygiene layer and by the second call
